@@ -218,7 +218,7 @@ static void do_ec(int ecss) {
 			bn_mod(R, R, N);
 			bn_mul(S, R, D); bn_mod(S, S, N); bn_sub(S, N, S); bn_mod(S, S, N);
 		} else { fprintf(stderr, "unknown mutation %s\n", m); exit(2); }
-		ret = -1;
+		ret = -1; vh_code();       /* input construction above must not leak a sticky error code into the event */
 		VH_TRY(err, ret = ecss ? cp_ecss_ver(R, S, msg, len, Q) : cp_ecdsa_ver(R, S, msg, len, flag, Q));
 		ec_event(ver_op, m, ret, err);
 	}
@@ -248,6 +248,7 @@ static void rsa_event(const char *mut, rsa_t pk, int ret, int err) {
 	vh_begin("rsa_ver");
 	vh_int("crash", rsa_crash);
 	vh_str("pad", pad_name());
+	vh_int("w", (long)sizeof(dig_t));
 	vh_int("mdl", (long)RLC_MD_LEN);
 	vh_str("mut", mut);
 	vh_int("honest", strcmp(mut, "honest") == 0);
@@ -401,7 +402,7 @@ static void do_rsa(void) {
 			skip = !raw_sign(T);
 		} else { fprintf(stderr, "unknown mutation %s\n", m); exit(2); }
 		if (skip) { vh_begin("skip"); vh_str("mut", m); vh_end(); continue; }
-		ret = -1;
+		ret = -1; vh_code();
 		memcpy(buf2, sig, slen);
 #if CP_RSAPD == BASIC
 		ret = guarded_ver(buf2, slen, msg, len, flag, pk, &err);
@@ -504,7 +505,7 @@ static void do_bls(void) {
 			ep2_add(PK, PK, TT); ep2_norm(PK, PK);
 			bn_zero(U);
 		} else { fprintf(stderr, "unknown mutation %s\n", m); exit(2); }
-		ret = -1; hm_n = 0;
+		ret = -1; hm_n = 0; vh_code();
 		VH_TRY(err, ret = cp_bls_ver(SG, msg, len, PK));
 		vh_begin("bls_ver");
 		bls_hdr();
@@ -615,7 +616,7 @@ static void do_inv(int zss) {
 		} else if (!zss && (g1_mut(m, 's', SG, LS, SG0, LSf) || g2_mut(m, 'q', A2, LK, A2f, D2))) {
 		} else if (zss && (g2_mut(m, 's', PK, LS, PK0, LSf) || g1_mut(m, 'q', A1, LK, A1f, D2))) {
 		} else { fprintf(stderr, "unknown mutation %s\n", m); exit(2); }
-		ret = -1;
+		ret = -1; vh_code();
 		if (zss) { VH_TRY(err, ret = cp_zss_ver(PK, msg, len, flag, A1, ZZ)); }
 		else { VH_TRY(err, ret = cp_bbs_ver(SG, msg, len, flag, A2, ZZ)); }
 		vh_begin(zss ? "zss_ver" : "bbs_ver");
